@@ -228,6 +228,24 @@ Definition l3_x : string := Eval cbv in fst (fst l3).
 Definition l3_it : expr := Eval cbv in snd (fst l3).
 Definition l3_b : stmts := Eval cbv in snd l3.
 
+(** ** The local variables the invariants speak about, computed from the AST (never written as literals:
+    renaming a local of nxscope.py must not break the proofs) *)
+Fixpoint assigned_names (ss : stmts) : list string :=
+  match ss with
+  | Snil => []
+  | Scons (SAssign (TName x) _) r => x :: assigned_names r
+  | Scons _ r => assigned_names r
+  end.
+Definition tname (t : target) : string := match t with TName x => x | _ => "" end.
+Definition v_self : string := Eval cbv in match f_params NxscopeHandler__stream_thread with (x, _) :: _ => x | [] => "" end.
+Definition v_chmax : string := Eval cbv in nth 0 (assigned_names th_body) "".
+Definition v_samples : string := Eval cbv in nth 1 (assigned_names th_body) "".
+Definition v_sdata : string := Eval cbv in nth 2 (assigned_names th_body) "".
+Definition v_data : string := Eval cbv in tname l1_t.
+Definition v_chan : string := Eval cbv in tname l2_t.
+(** the names as literals, for the look-up rewriting (which is syntactic) *)
+Ltac names := cbv delta [v_self v_chmax v_samples v_sdata v_data v_chan l3_x] in *.
+
 (** one step: a comprehension / the statement with write-back is named before reduction can open it *)
 Ltac wb_step :=
   lazymatch goal with
@@ -294,13 +312,14 @@ Proof. unfold step1. destruct (nth _ en false); [apply list_set_length|reflexivi
 
 Lemma loop1 n qs subs ovf sd : forall ss acc e,
   Forall (fun s => 0 <= Stream.s_chan s < cm) ss -> List.length acc = List.length cfgs ->
-  genv3 e -> lookup "self" e = Some (nxh (comm qs) subs ovf) -> lookup "samples" e = Some (PList (map PList acc)) ->
-  lookup "sdata" e = Some sd -> lookup "chmax" e = Some (PInt cm) ->
+  genv3 e -> lookup v_self e = Some (nxh (comm qs) subs ovf) -> lookup v_samples e = Some (PList (map PList acc)) ->
+  lookup v_sdata e = Some sd -> lookup v_chmax e = Some (PInt cm) ->
   exists e', for_loop program (call_func program (S (S n))) (S (S n)) l1_t l1_b (map sample_pv ss) e = PyLite.Ok (ONorm e') /\
-    genv3 e' /\ lookup "self" e' = Some (nxh (comm qs) subs ovf) /\
-    lookup "samples" e' = Some (PList (map PList (fold_left step1 ss acc))) /\
-    lookup "sdata" e' = Some sd /\ lookup "chmax" e' = Some (PInt cm).
+    genv3 e' /\ lookup v_self e' = Some (nxh (comm qs) subs ovf) /\
+    lookup v_samples e' = Some (PList (map PList (fold_left step1 ss acc))) /\
+    lookup v_sdata e' = Some sd /\ lookup v_chmax e' = Some (PInt cm).
 Proof.
+  names.
   induction ss as [|s ss IH]; intros acc e Hr Hacc Hg Hs Hsm Hsd Hcm.
   - exists e. rewrite for_loop_nil. cbn [fold_left]. auto 10.
   - inversion Hr as [|? ? Hs0 Hr']; subst. genv3_split.
@@ -340,13 +359,13 @@ Proof.
 Qed.
 (** ** the write-back of the subscriber loop: the queue [que] stands for [self._sub_q[chan][k]] *)
 Lemma wb_subq e2 qs rows ovf c rowc k q' :
-  lookup l3_x e2 = Some (subq_pv q') -> lookup "self" e2 = Some (nxh (comm qs) rows ovf) ->
-  lookup "chan" e2 = Some (PInt (Z.of_nat c)) ->
+  lookup l3_x e2 = Some (subq_pv q') -> lookup v_self e2 = Some (nxh (comm qs) rows ovf) ->
+  lookup v_chan e2 = Some (PInt (Z.of_nat c)) ->
   nth_error rows c = Some rowc -> (k < List.length rowc)%nat ->
   forwb_wb program l3_x l3_it k e2 =
-  PyLite.Ok (update "self" (nxh (comm qs) (list_set rows c (list_set rowc k q')) ovf) e2).
+  PyLite.Ok (update v_self (nxh (comm qs) (list_set rows c (list_set rowc k q')) ovf) e2).
 Proof.
-  intros Hq Hs Hc Hr Hk.
+  names. intros Hq Hs Hc Hr Hk.
   assert (Hcl : (c < List.length rows)%nat) by (apply nth_error_Some; congruence).
   unfold forwb_wb. rewrite Hq. cbv delta [l3_it]. cbn [path_set path_get idx_val as_int].
   rewrite Hs, Hc. unfold nxh at 1 2 3. cbn [field_name lookup String.eqb Ascii.eqb Bool.eqb andb as_int].
@@ -363,14 +382,15 @@ Proof. reflexivity. Qed.
 
 Lemma loop3 n qs ovf c acc : forall rest k rows rowc e,
   nth_error rows c = Some rowc -> skipn k rowc = rest -> (c < List.length acc)%nat ->
-  genv3 e -> lookup "self" e = Some (nxh (comm qs) rows ovf) -> lookup "chan" e = Some (PInt (Z.of_nat c)) ->
-  lookup "samples" e = Some (PList (map PList acc)) ->
+  genv3 e -> lookup v_self e = Some (nxh (comm qs) rows ovf) -> lookup v_chan e = Some (PInt (Z.of_nat c)) ->
+  lookup v_samples e = Some (PList (map PList acc)) ->
   exists e', forwb_loop program (call_func program (S (S n))) (S (S n)) l3_x l3_it l3_b k (map subq_pv rest) e =
              PyLite.Ok (ONorm e') /\
     genv3 e' /\
-    lookup "self" e' = Some (nxh (comm qs) (list_set rows c (firstn k rowc ++ put_all (nth c acc []) rest)%list) ovf) /\
-    lookup "samples" e' = Some (PList (map PList acc)).
+    lookup v_self e' = Some (nxh (comm qs) (list_set rows c (firstn k rowc ++ put_all (nth c acc []) rest)%list) ovf) /\
+    lookup v_samples e' = Some (PList (map PList acc)).
 Proof.
+  names.
   induction rest as [|q rest IH]; intros k rows rowc e Hr Hsk Hc Hg Hs Hch Hsm.
   - exists e. rewrite forwb_loop_nil. split; [reflexivity|]. split; [exact Hg|]. split; [|exact Hsm].
     cbn [put_all map]. rewrite app_nil_r, (skipn_nil_firstn _ _ Hsk), (list_set_same _ _ _ Hr). exact Hs.
@@ -380,8 +400,9 @@ Proof.
     cbn [map]. rewrite forwb_loop_cons.
     eassert (HX : exec_block program (call_func program (S (S n))) (S (S n)) (update l3_x (subq_pv q) e) l3_b = _).
     { cbv delta [l3_x l3_b]. dsteps. reflexivity. }
-    rewrite HX. clear HX. cbv iota.
-    erewrite wb_subq; [| cbv delta [l3_x]; lk | lk | lk | exact Hr | exact Hk ].
+    names. rewrite HX. clear HX. cbv iota.
+    erewrite wb_subq; [| names; lk | names; lk | names; lk | exact Hr | exact Hk ].
+    names.
     cbn [bind].
     match goal with
     | |- context [forwb_loop _ _ _ _ _ _ _ _ ?e2] =>
@@ -415,11 +436,12 @@ Proof. apply firstn_S_list_set. Qed.
 
 Lemma loop2 n qs ovf acc : forall m c rows e,
   (c + m = List.length cfgs)%nat -> List.length rows = List.length cfgs -> List.length acc = List.length cfgs ->
-  genv3 e -> lookup "self" e = Some (nxh (comm qs) rows ovf) -> lookup "samples" e = Some (PList (map PList acc)) ->
+  genv3 e -> lookup v_self e = Some (nxh (comm qs) rows ovf) -> lookup v_samples e = Some (PList (map PList acc)) ->
   exists e', for_loop program (call_func program (S (S n))) (S (S n)) l2_t l2_b
                (map (fun k => PInt (0 + Z.of_nat k)) (seq c m)) e = PyLite.Ok (ONorm e') /\
-    lookup "self" e' = Some (nxh (comm qs) (firstn c rows ++ deliver_rows acc c (skipn c rows))%list ovf).
+    lookup v_self e' = Some (nxh (comm qs) (firstn c rows ++ deliver_rows acc c (skipn c rows))%list ovf).
 Proof.
+  names.
   induction m as [|m IH]; intros c rows e Hcm Hrows Hacc Hg Hs Hsm.
   - exists e. cbn [seq map]. rewrite for_loop_nil. split; [reflexivity|].
     rewrite skipn_all2 by lia. cbn [deliver_rows]. rewrite app_nil_r, firstn_all2 by lia. exact Hs.
@@ -450,8 +472,8 @@ Proof.
       rewrite (firstn_S_nth_error _ _ _ Hr) at 1. rewrite <- app_assoc. reflexivity.
     + (* a group: every queue of the row gets it *)
       assert (Ez : (0 <? zlen (x :: g)) = true) by (unfold zlen; cbn [List.length]; lia).
-      destruct (loop3 n qs ovf c acc rowc 0%nat rows rowc (update "chan" (PInt (Z.of_nat c)) e))
-        as (e3 & HL3 & Hg3 & Hs3 & Hsm3); [exact Hr | reflexivity | lia | genv3_solve | lk | lk | lk |].
+      destruct (loop3 n qs ovf c acc rowc 0%nat rows rowc (update v_chan (PInt (Z.of_nat c)) e))
+        as (e3 & HL3 & Hg3 & Hs3 & Hsm3); names; [exact Hr | reflexivity | lia | genv3_solve | lk | lk | lk |].
       rewrite Eg in Hs3. cbn [firstn app] in Hs3.
       eassert (HX : for_loop program (call_func program (S (S n))) (S (S n)) l2_t l2_b
                       (PInt (Z.of_nat c) :: map (fun k => PInt (0 + Z.of_nat k)) (seq (S c) m)) e = _).
@@ -484,7 +506,7 @@ Ltac thread_tac ss n r subs fl Hr Hsubs Hrange :=
           let e1 := fresh "e1" in let HL1 := fresh "HL1" in let Hg1 := fresh "Hg1" in let Hs1 := fresh "Hs1" in
           let Hsm1 := fresh "Hsm1" in let Hsd1 := fresh "Hsd1" in let Hcm1 := fresh "Hcm1" in
           destruct (loop1 (S (S (S n))) r subs ov (stream_obj fl (map sample_pv ss)) ss
-                      (repeat [] (List.length cfgs)) g) as (e1 & HL1 & Hg1 & Hs1 & Hsm1 & Hsd1 & Hcm1);
+                      (repeat [] (List.length cfgs)) g) as (e1 & HL1 & Hg1 & Hs1 & Hsm1 & Hsd1 & Hcm1); names;
           [ exact Hr | apply repeat_length | repeat split; reflexivity | reflexivity | reflexivity | reflexivity
           | reflexivity | ];
           replace (for_loop a b c d e0 (map sample_pv ss) g) with (PyLite.Ok (ONorm e1)) by (symmetry; exact HL1);
@@ -492,7 +514,7 @@ Ltac thread_tac ss n r subs fl Hr Hsubs Hrange :=
           match goal with
           | |- context [for_loop ?a2 ?b2 ?c2 ?d2 ?e02 ?l2 ?g2] =>
               let e2 := fresh "e2" in let HL2 := fresh "HL2" in let Hs2 := fresh "Hs2" in
-              destruct (loop2 (S (S (S n))) r ov (acc_of ss) (List.length cfgs) 0%nat subs g2) as (e2 & HL2 & Hs2);
+              destruct (loop2 (S (S (S n))) r ov (acc_of ss) (List.length cfgs) 0%nat subs g2) as (e2 & HL2 & Hs2); names;
               [ reflexivity | exact Hsubs | unfold acc_of; rewrite fold_step1_length; apply repeat_length
               | repeat split; assumption | exact Hs1 | exact Hsm1 | ];
               replace (for_loop a2 b2 c2 d2 e02 l2 g2) with (PyLite.Ok (ONorm e2)) by (symmetry; exact HL2);
